@@ -23,7 +23,14 @@ use prost::{DecodeError, Message};
 use crate::proto::command::ListenersCount;
 
 pub const MAX_FDS_OUT: usize = 200;
-pub const MAX_BYTES_OUT: usize = 4096;
+/// Longest textual form of a `SocketAddr`:
+/// `[ffff:ffff:ffff:ffff:ffff:ffff:ffff:ffff%4294967295]:65535`
+const MAX_ADDRESS_TEXT_LEN: usize = 58;
+/// Size of the manifest buffer. The manifest carries one textual address per
+/// file descriptor, each as a length-delimited protobuf string (one tag byte,
+/// one length byte, the text), plus the length prefix of the whole message:
+/// it must hold the addresses of the `MAX_FDS_OUT` descriptors we advertise.
+pub const MAX_BYTES_OUT: usize = MAX_FDS_OUT * (MAX_ADDRESS_TEXT_LEN + 2) + 16;
 
 #[derive(thiserror::Error, Debug)]
 pub enum ScmSocketError {
